@@ -1,7 +1,7 @@
 """C20 configuration for /verif/check."""
 PROP = dict(
         module='kbuild', pkg='.', pkgname='main', harness=['kbuild/c20_test.go'],
-        n=dict(quick=120, thorough=2500),
+        n=dict(quick=400, thorough=5000),
         nontrivial=r'^run \S+ \| [1-9]',
         rule='one evaluation = one run of the real Context.FindRedirects on a source tree written to disk (20 runs per tree: '
              'generated trees, the deterministic boundary trees and /repo/kernel), replayed through the Lean model of the '
